@@ -324,8 +324,8 @@ def small(case):
 def run(ctx):
     r = ctx.rng
     cases = [norm_case(c) for c in CORPUS]
-    nsmall = ctx.n(420, 3000)
-    nbig = ctx.n(0, 260)
+    nsmall = ctx.n(700, 5000)
+    nbig = ctx.n(6, 500)
     for _ in range(nsmall):
         cases.append(gen_case(ctx, 7, below=r.random() < 0.05))
     for _ in range(nbig):
